@@ -1,6 +1,6 @@
 (* C15 - allocation failure is reported as an error, never a crash or silent loss.  Statements only.
    (Absence of faults and of leaks under every schedule is C14's c14_* theorems, which quantify over sc.) *)
-From LW Require Import Base.Bytes Spec.TagSpec Model.Tags Gen.Consts Model.Alloc Model.AllocScen Proofs.AllocProofs.
+From LW Require Import Base.Bytes Model.TagIter Spec.TagSpec Model.Tags Gen.Consts Model.Alloc Model.AllocScen Proofs.AllocProofs.
 Local Open Scope Z_scope.
 
 Definition tags_inv (t : tags) : Prop := exists l, wf_tags l /\ t_bytes t = enc l /\ t_len t = zlen (t_bytes t).
@@ -36,10 +36,10 @@ Theorem c15_set_partial : forall sc o h num data o' r h',
 Proof. exact set_partial. Qed.
 Print Assumptions c15_set_partial.
 
-(* action details: a failed extension keeps what was stored *)
-Theorem c15_detail_reported : forall sc d data h d' r h',
+(* action details: a failed or refused extension keeps what was stored *)
+Theorem c15_detail_reported : forall sc d data h d' r h', 0 <= d_len d ->
   sk_add_detail sc d data h = Done (d', r, h') ->
-  (r = - ENOMEM /\ d' = d) \/ (0 <= r /\ d_bytes d' = d_bytes d ++ data).
+  (r = - ENOMEM /\ d' = d) \/ (r = - Model.TagIter.EINVAL /\ d' = d) \/ (0 <= r /\ d_bytes d' = d_bytes d ++ data).
 Proof. exact detail_reported. Qed.
 Print Assumptions c15_detail_reported.
 
